@@ -328,7 +328,11 @@ func genC19(r *rand.Rand, t *Trace, thorough bool) {
 		v := map[uint32]float64{}
 		tx := map[uint32]float64{}
 		ties := it%3 == 0
+		odd := it%7 == 3 // NaN and infinite scores: every id still comes through, and the inputs stay as they were
 		sc := func() float64 {
+			if odd && r.Intn(4) == 0 {
+				return []float64{math.NaN(), math.Inf(1), math.Inf(-1)}[r.Intn(3)]
+			}
 			if ties {
 				return float64(r.Intn(4))
 			}
@@ -376,6 +380,9 @@ func genC19(r *rand.Rand, t *Trace, thorough bool) {
 		if ties {
 			st = append(st, "fusion.ties")
 		}
+		if odd {
+			st = append(st, "fusion.nan_inf_scores")
+		}
 		t.Emit(c.B(mut), st...)
 	}
 	// ---- scoreMapToRanks (1908): the ranking step of reciprocal-rank fusion, ties included ----
@@ -396,6 +403,9 @@ func genC19(r *rand.Rand, t *Trace, thorough bool) {
 				m[id] = float64(r.Intn(4)) * 0.5
 				if r.Intn(6) == 0 {
 					m[id] = math.Inf(1 - 2*r.Intn(2))
+				}
+				if it%9 == 5 && r.Intn(3) == 0 {
+					m[id] = math.NaN()
 				}
 			}
 		}
